@@ -91,13 +91,17 @@ BEHS = ["ok", "raises", "turnRaises", "overshoot"]
 
 # what `_read_request` does with a validation failure of the request batch (asked of the model's extracted tables at
 # the start of a run): re-raised as RpcError("ProtocolError") or left as IPCError
-SHAPE = {"readWrapsBatchValidation": False, "readWrapsKwargs": False}
+SHAPE = {"readWrapsBatchValidation": False, "readWrapsKwargs": False, "readWrapsEmptyStream": False}
 
 
 def expected_exc_name(cls: str, route: str) -> str | None:
     """`exception_type` the server's Arrow error body should carry when reading the body fails with class `cls`."""
     if cls == "ipcError" and route != "exchange" and SHAPE["readWrapsBatchValidation"]:
         return "RpcError"
+    if cls == "stopIteration" and route != "exchange" and SHAPE["readWrapsEmptyStream"]:
+        return "RpcError"
+    if cls.startswith("late:"):  # raised while the kwargs are materialised (metadata intact)
+        return "RpcError" if SHAPE["readWrapsKwargs"] else EXC_TYPE_NAME.get(cls.removeprefix("late:"))
     return EXC_TYPE_NAME.get(cls)
 
 
@@ -452,6 +456,7 @@ class ParsePool:
                 if md != base_md:
                     return
                 cls = cls.removeprefix("late:")
+                how = ["late", how]
             if st == "fail":
                 self.pool.setdefault((base_kind, cls), [])
                 lst = self.pool[(base_kind, cls)]
@@ -743,7 +748,7 @@ def build_request(env: Env, pool: ParsePool, c: dict[str, str], rng: Any) -> dic
             return None
         plain, how = got
         notes["malformed"] = how
-        predicted_exc = cls
+        predicted_exc = ("late:" + cls) if (isinstance(how, list) and how and how[0] == "late") else cls
 
     # ---- content encoding + wire size
     headers: dict[str, str] = {}
